@@ -55,6 +55,8 @@ class AttrMixin:
             if k == "mod":
                 r = self.M.module_member(t[1], name)
                 if r is not None:
+                    if r[0] == "const" and name in getattr(r[2], "mutable_globals", ()):
+                        return V(("free", r[2].name + "." + name))
                     return self.static_value(r)
                 return V(("ext", t[1] + "." + name), [("ext", t[1] + "." + name)])
             if k == "ext":
